@@ -261,16 +261,35 @@ class PointInjector:
 
         return _P()
 
+    FUNC_HOMES = ("os", "posix", "select", "signal", "_signal", "fcntl", "termios", "tty", "time")
+
+    def _wrap_function(self, fn, label):
+        inj = self
+
+        def after(*a, **kw):
+            r = fn(*a, **kw)
+            inj._tick("after " + label)
+            return r
+
+        return after
+
     def __enter__(self):
         import curtsies.input as ci
         import curtsies.termhelpers as th
 
+        # the modules may spell their imports either way: `import fcntl` (a module object under the name: attribute proxy) or
+        # `from fcntl import fcntl` / `from os import read as os_read` (the function itself under some name: wrapped directly)
+        real_mods = {id(sys.modules[m]): m for m in self.MODS if m in sys.modules}
         for mod in (ci, th):
-            for name in self.MODS:
-                if name in vars(mod):
-                    cur = vars(mod)[name]
+            for name, cur in list(vars(mod).items()):
+                if name.startswith("__"):
+                    continue
+                if id(cur) in real_mods or (name in self.MODS and not callable(cur) and hasattr(cur, "__getattr__")):
                     self.saved.append((mod, name, cur))
-                    setattr(mod, name, self._proxy(cur, name))
+                    setattr(mod, name, self._proxy(cur, real_mods.get(id(cur), name)))
+                elif callable(cur) and not isinstance(cur, type) and getattr(cur, "__module__", None) in self.FUNC_HOMES:
+                    self.saved.append((mod, name, cur))
+                    setattr(mod, name, self._wrap_function(cur, "%s.%s" % (cur.__module__, getattr(cur, "__name__", name))))
         sys.settrace(self._global)
         return self
 
